@@ -108,6 +108,8 @@ def make_layout(c):
     if c.get('analysis'):
         lay['analysis'] = [('AN1', 'v1')]
         lay['analysis_offsets'] = c['analysis']
+    if c.get('pad_before'):
+        lay['pad_before'] = dict(c['pad_before'])
     if c.get('seg_order'):
         lay['seg_order'] = list(c['seg_order'])
         if not lay.get('stext'):
@@ -221,6 +223,16 @@ def cases(tier, seed):
             c = dict(base)
             c.update(dv)
             yield c
+    # offsets that fill all eight columns of a HEADER field (>= 10,000,000), and just below; FCS 3.x offsets beyond 99,999,999 can only
+    # be written in TEXT (HEADER fields 0)
+    for base in bases[:2] + bases[4:6]:
+        for version in ('FCS2.0', 'FCS3.0', 'FCS3.1'):
+            for off in (9999990, 10000000, 12345678):
+                for an in (None, 'header'):
+                    for segname in ('data',) + (('analysis',) if an else ()):
+                        c = dict(base)
+                        c.update(version=version, analysis=an, pad_before={segname: off}, n=2)
+                        yield c
     # (C) refused layouts: each must raise
     refusals = [('mode', 'H'), ('mode', 'C'), ('mode', 'U'), ('datatype', 'A'),
                 ('byteord', '3,4,1,2'), ('byteord', '2,1,4,3'), ('byteord', '2,3,1,4'),
